@@ -28,7 +28,37 @@ def outcome(fn):
     try:
         return ('ok', fn())
     except Exception as e:     # noqa
+        if type(e).__name__ == 'PacketError':
+            # phase flag and the stack of (offset, name, class) entries, innermost first
+            return ('raise', 'PacketError', bool(e.was_error_found_in_unpacking_phase), [(x[0], x[1], 'D' if x[2] in ('Gen', 'Ref0') else x[2]) for x in e.fields_stack])
         return ('raise', type(e).__name__)
+
+
+def same_outcome(a, b, cls):
+    """generic outcome a vs generated outcome b: equal, or both PacketError with the same phase and the same stack except that
+    the innermost entry of the generated one may name the run "between 'A' and 'B'" of fixed fields that contains the
+    failing field, with the offset where A begins"""
+    if a == b:
+        return True
+    if a[0] != 'raise' or b[0] != 'raise' or a[1] != 'PacketError' or b[1] != 'PacketError':
+        return False
+    if a[2] != b[2] or len(a[3]) != len(b[3]) or a[3][1:] != b[3][1:]:
+        return False
+    (og, ng, cg), (oh, nh, ch) = a[3][0], b[3][0]
+    if cg != ch or not (isinstance(nh, str) and nh.startswith("between '")):
+        return False
+    import struct
+    table = [(n, f) for n, f, _, _ in cls.get_fields()]
+    names = [n for n, _ in table]
+    try:
+        first, last = nh[len("between '"):-1].split("' and '")
+        ia, ib, i_f = names.index(first), names.index(last), names.index(ng)
+    except ValueError:
+        return False
+    if not (ia <= i_f <= ib) or any(not getattr(f, 'struct_code', None) for _, f in table[ia:ib + 1]):
+        return False
+    delta = sum(struct.calcsize('>' + f.struct_code) for _, f in table[ia:i_f])
+    return oh == og - delta
 
 
 def view(p, cls):
@@ -69,7 +99,7 @@ def main():
             off = rnd.choice([0, 0, 0, 1, 2])
             a = outcome(lambda: (lambda p: (view(p, Ref0),))(Ref0.unpack(raw, off)))
             b = outcome(lambda: (lambda p: (view(p, Gen),))(Gen.unpack(raw, off)))
-            if a != b:
+            if not same_outcome(a, b, Gen):
                 res = dict(reproduced=True, direction='unpack', input=dict(raw=raw.hex(), offset=off), generic=repr(a), generated=repr(b))
                 break
             if a[0] == 'ok':
@@ -85,7 +115,7 @@ def main():
                     setattr(pn, n, v)
                 a2 = outcome(lambda: pg.pack().hex())
                 b2 = outcome(lambda: pn.pack().hex())
-                if a2 != b2:
+                if not same_outcome(a2, b2, Gen):
                     res = dict(reproduced=True, direction='pack', input=dict(parsed_from=raw.hex(), offset=off, values=view(pg, Ref0)),
                                generic=repr(a2), generated=repr(b2))
                     break
